@@ -77,6 +77,25 @@ def shard_translate(seed, count):
         st_['dfsr'] = rng.getrandbits(14)
         st_['dfar'] = rng.getrandbits(32)
         target.apply_state(cpu, st_)
+        if rng.random() < 0.3:
+            # the way system software programs the MPU: through the field accessors, reprogramming regions that held something else before
+            # (every subregion-disable bit first set then set to its final value; enable last) - the final register values are the same
+            for r in range(NREG):
+                reg = cpu.registers.drsrs[r]
+                want = regs['drsrs[%d]' % r]
+                reg.en = 0
+                for n in rng.sample(range(8), 8):
+                    reg.set_sd_n(n, 1)
+                reg.rsize = rng.getrandbits(5)
+                for n in rng.sample(range(8), 8):
+                    reg.set_sd_n(n, (want >> (8 + n)) & 1)
+                reg.rsize = (want >> 1) & 31
+                reg.en = want & 1
+                reg.value = (reg.value & 0xFF3F) | (want & ~0xFF3F & 0xFFFFFFFF)       # bits without an accessor
+                if reg.value != want:
+                    acc.violation('C14:region-programming:DRSR', {'regs': st_, 'region': r, 'kind': 'programming'}, {'wanted': want, 'register_holds': reg.value})
+                    reg.value = want
+            acc.cls('translate:programmed-through-accessors')
         pre = target.snapshot(cpu, False)
         addrs = probe_addresses(rng, regs)
         rng.shuffle(addrs)
@@ -224,6 +243,21 @@ def _dispatch(fn, args):
 
 
 def replay(case, bucket=None):
+    if case.get('kind') == 'programming':
+        # deterministic re-run of the accessor sequence for that region: all subregion bits set, then the wanted value
+        cpu = target.new_cpu(gen.CONFIGS['v6'], False, [(0, 0x40)])
+        reg = cpu.registers.drsrs[case['region']]
+        want = case['regs']['drsrs[%d]' % case['region']]
+        reg.value = 0
+        for n in range(8):
+            reg.set_sd_n(n, 1)
+        reg.rsize = 31
+        reg.en = 1
+        for n in range(8):
+            reg.set_sd_n(n, (want >> (8 + n)) & 1)
+        reg.rsize = (want >> 1) & 31
+        reg.en = want & 1
+        return ['DRSR holds %#x, programmed %#x' % (reg.value & 0xFF3F, want & 0xFF3F)] if (reg.value & 0xFF3F) != (want & 0xFF3F) else []
     if 'regs' in case:
         cfgov = gen.CONFIGS['v6']
         cpu = target.new_cpu(cfgov, False, [(0, 0x40)])
